@@ -59,6 +59,15 @@ def value_at(doc, loc):
 
 def gen(rng, tier):
     thorough = tier == "thorough"
+    # paths that walk THROUGH (not end at) a missing member or element, of every token kind: index-looking names missing from an
+    # object, indices beyond an array, names applied to arrays / scalars - for every operation kind, also after a removal
+    wdoc = {"a": {"0": {"y": 1}, "k": [1]}, "b": [{"y": 2}], "s": "str", "n": None}
+    for mid in ("/a/1", "/a/7", "/a/-1", "/a/01", "/a/zz", "/b/1", "/b/5", "/b/k", "/b/-", "/s/0", "/n/0", "/zz", "/a/k/3", "/a/0/y"):
+        for tail in ("/y", "/y/z", "/0", "/-"):
+            p_ = mid + tail
+            for ops in ([["add", p_, 1]], [["remove", p_]], [["replace", p_, 1]], [["test", p_, 1]], [["move", p_, "/q"]], [["copy", p_, "/q"]],
+                        [["move", "/s", p_]], [["copy", "/s", p_]], [["remove", "/a/0"], ["add", "/a/0" + tail, 1]], [["addne", p_, 1]], [["addap", p_, 1]]):
+                yield {"mode": True, "ops": ops, "doc": wdoc}
     for di, doc in enumerate(DOCS):
         paths = paths_for(doc)
         if not thorough and len(paths) > 40:
